@@ -27,7 +27,10 @@ def _c_unescape(s):
     return "".join(out)
 
 
-def harvest(allow_forbidden=False):
+NONDET = re.compile(r"\b(random|getsys|getenv)\b", re.I)    # output is not a function of the program text
+
+
+def harvest(allow_forbidden=False, deterministic=False):
     texts = []
     # 1. string arguments of ctx.reset("...") in tests
     for f in sorted(glob.glob(os.path.join(REPO, "tests", "*.cpp")) + glob.glob(os.path.join(REPO, "tests", "*.c"))):
@@ -80,6 +83,8 @@ def harvest(allow_forbidden=False):
             continue
         seen.add(t)
         if not allow_forbidden and FORBIDDEN.search(t):
+            continue
+        if deterministic and NONDET.search(t):
             continue
         out.append(t)
     return out
